@@ -36,10 +36,10 @@ ASSUMPTIONS = ['gfortran 12 -O0 with run-time checks is the reference semantics'
 BUDGET_S = {'quick': 400, 'thorough': 3000}
 CASE_TIMEOUT_S = 180
 
-MODES = ['resolve0', 'resolve1', 'merge', 'resolve0', 'trafo', 'resolve2', 'merge', 'trafo']
+MODES = ['resolve0', 'resolve1', 'merge', 'resolve0', 'trafo', 'resolve2', 'merge_resolve', 'trafo']
 HAZ = [('section_lb', 'resolve0'), ('partial_range', 'resolve0'), ('modified_operand', 'resolve0'),
        ('merge_dep_sub', 'merge'), ('merge_loop_between', 'merge'), ('merge_name_clash', 'merge'),
-       ('section_lb', 'resolve1'), ('modified_operand', 'trafo'), ('merge_expr_selector', 'merge')]
+       ('section_lb', 'resolve1'), ('modified_operand', 'trafo'), ('merge_expr_selector', 'merge'), ('merge_all_moved', 'merge'), ('merge_then_resolve', 'trafo')]
 
 
 def plan(idx, rng):
@@ -49,21 +49,27 @@ def plan(idx, rng):
     else:
         mode = MODES[(idx - (idx + 1) // 4) % len(MODES)]
     f = {h: False for h in HAZARDS}
-    if hazard:
+    if hazard in HAZARDS:
         f[hazard] = True
     opts = {}
     if mode.startswith('resolve'):
         opts = {'start_depth': int(mode[-1])}
     elif mode == 'merge':
         opts = {'max_parents': rng.choice([None, None, 1, 2])}
+    elif mode == 'merge_resolve':
+        # the two utilities composed by hand, with the rescoping that do_merge_associates leaves to its caller
+        opts = {'max_parents': rng.choice([None, None, 1, 2]), 'start_depth': rng.choice([0, 1, 1, 2])}
     else:
-        opts = {'resolve_associates': rng.random() < 0.8, 'merge_associates': rng.random() < 0.6,
+        # AssociatesTransformation with exactly one of the two steps; both steps together are the slice
+        # 'merge_then_resolve' (known defect: IndexError for any function reference inside a block)
+        res_only = rng.random() < 0.6
+        opts = {'resolve_associates': res_only, 'merge_associates': not res_only,
                 'start_depth': rng.choice([0, 0, 1, 2]), 'max_parents': rng.choice([None, 1, 2])}
-        if hazard:
+        if hazard == 'merge_then_resolve':
+            opts.update(resolve_associates=True, merge_associates=True)
+        elif hazard:
             opts.update(resolve_associates=True, merge_associates=False, start_depth=0)
-        if not (opts['resolve_associates'] or opts['merge_associates']):
-            opts['resolve_associates'] = True
-    merging = mode == 'merge' or (mode == 'trafo' and opts.get('merge_associates'))
+    merging = mode in ('merge', 'merge_resolve') or (mode == 'trafo' and opts.get('merge_associates'))
     f['merge_safe'] = merging
     f['max_stmts'] = rng.choice([5, 7, 9])
     f['assoc_density'] = rng.choice([0.2, 0.3, 0.4])
@@ -100,6 +106,10 @@ def transform(case, mode, opts):
         do_resolve_associates(kern, start_depth=opts['start_depth'])
     elif mode == 'merge':
         do_merge_associates(kern, max_parents=opts['max_parents'])
+    elif mode == 'merge_resolve':
+        do_merge_associates(kern, max_parents=opts['max_parents'])
+        kern.rescope_symbols()
+        do_resolve_associates(kern, start_depth=opts['start_depth'])
     else:
         AssociatesTransformation(**opts).apply(kern)
     return sf.to_fortran()
@@ -121,13 +131,16 @@ HAZ_KEYS = {
     'merge_dep_sub': ('associates:merge:moved-selector-subscript-uses-parent-associate-name', ('compile', 'differ', 'reparse')),
     'merge_loop_between': ('associates:merge:selector-moved-out-of-loop-that-defines-its-subscript', ('differ', 'compile')),
     'merge_expr_selector': ('associates:merge:expression-selector-has-no-scope', ('exception',)),
+    'merge_all_moved': ('associates:merge:empty-ASSOCIATE-left-after-moving-all-associations', ('compile', 'reparse')),
+    'merge_then_resolve': ('associates:merge-then-resolve:IndexError-top-level-associate-lost-its-parent-scope', ('exception',)),
     'merge_name_clash': ('associates:merge:moved-name-captures-host-variable-of-parent-block', ('differ', 'compile')),
 }
 
 
 def classify(mode, hazard, symptom, detail, features, exc=None):
-    group = 'merge' if mode == 'merge' else ('trafo' if mode == 'trafo' else 'resolve')
-    if hazard in HAZ_KEYS and symptom in HAZ_KEYS[hazard][1] and ('hazard_' + hazard) in features:
+    group = {'merge': 'merge', 'trafo': 'trafo', 'merge_resolve': 'merge+resolve'}.get(mode, 'resolve')
+    if hazard in HAZ_KEYS and symptom in HAZ_KEYS[hazard][1] and \
+            (('hazard_' + hazard) in features or hazard == 'merge_then_resolve'):
         return HAZ_KEYS[hazard][0]
     if symptom == 'exception':
         return f'associates:{group}:exception:{type(exc).__name__}@{innermost_loki_frame(exc)}'
